@@ -134,8 +134,26 @@ def check_filter_cond(ctx):
             ctx.phi_fail("filter_cond_selects_whole_branch", case, key="onpolicy:filter_cond")
 
 
+def check_real_policy_reevaluation(ctx):
+    """the real MLPActorCriticPolicy on every action-space kind: every stored sample re-evaluates to its
+    own stored value and log-probability (clipping active on the bounded boxes, non-unit std)"""
+    from .common.realpolicy import reevaluation_cases
+    for c in reevaluation_cases(ctx, ctx.budget(7, 28)):
+        slim = {k: v for k, v in c.items() if k not in ("policy", "flat")}
+        ctx.case({"kind": "real-policy-reevaluation", **{k: slim[k] for k in ("algo", "action_space", "log_std_init",
+                  "num_envs", "num_steps", "stored_log_prob")}}, True)
+        ctx.count("real-policy:" + c["action_space"])
+        ctx.count("real-policy:out-of-bounds-samples", c["out_of_bounds_samples"])
+        if not ctx.close(c["stored_log_prob"], c["reevaluated_log_prob"], 16.0):
+            ctx.phi_fail("log_prob_is_policys_for_stored_action", slim, key="onpolicy:real_policy_log_prob")
+        elif not ctx.close(c["stored_value"], c["reevaluated_value"], 16.0):
+            ctx.phi_fail("value_is_policys_for_stored_observation", slim, key="onpolicy:real_policy_value")
+        ctx.gc(4)
+
+
 def run(ctx):
     check_filter_cond(ctx)
+    check_real_policy_reevaluation(ctx)
     for i in range(ctx.budget(10, 60)):
         _config(ctx, i)
         ctx.gc()
